@@ -362,7 +362,13 @@ def gen_stack(rng, depth, width, nl=False, as_inner=False, as_child=False):
         nfr = 0          # stub child
     else:
         nfr = rng.randrange(0 if (as_inner or as_child) else 1, width + 1) if rng.random() < 0.9 else 0
-    return {"root": gen_obj(rng, nl=nl), "frames": [gen_frame(rng, depth, width, nl=nl) for _ in range(nfr)],
+    frames = [gen_frame(rng, depth, width, nl=nl) for _ in range(nfr)]
+    if frames and rng.random() < 0.12:
+        # a run of identical frames (recursion): traceback folds more than 3 repeats
+        i = rng.randrange(len(frames))
+        rep = dict(frames[i], ctxs=[] if rng.random() < 0.7 else frames[i]["ctxs"][:1])
+        frames[i:i + 1] = [rep] * rng.choice([4, 5, 6, 8])
+    return {"root": gen_obj(rng, nl=nl), "frames": frames,
             "leaf": gen_obj(rng, nl=nl) if rng.random() < 0.4 else None,
             "error": _pick(rng, ERRS) if rng.random() < 0.25 else None}
 
@@ -470,3 +476,23 @@ def falsy_specials():
                                   ["c", dict(_ctx(""), obj=o, varname="")]],
                       inner={"root": o, "frames": [], "leaf": o, "error": None}), obj=o, varname=None, start_line=0)
         yield {"root": None, "frames": [fr([c])], "leaf": o, "error": None}
+
+
+def repeat_specials():
+    """runs of 4..8 consecutive IDENTICAL summary entries (traceback folds more than 3 into
+    '[Previous line repeated N more times]'): the same real frame repeated, at top level and in an
+    inner stack, hidden frames inside the run, and one context repeated at the same with-line"""
+    fr = lambda t="f0", ln=7, ctxs=(), hide=False: {"t": t, "lineno": ln, "hide": hide, "hide_line": False, "ctxs": list(ctxs)}
+    rc = lambda: dict(_ctx(None), obj=["Lock", "<L>"], varname="v", start_line=2)
+    for n in (3, 4, 5, 8):
+        yield {"root": None, "frames": [fr() for _ in range(n)], "leaf": ["R", "<leaf>"], "error": None}
+        yield {"root": ["R", "<r>"], "frames": [fr("uni", 3)] + [fr("meth", 11) for _ in range(n)] + [fr("uni", 3)],
+               "leaf": None, "error": ["V", "bad"]}
+        # the run sits in an inner stack
+        yield wrap_ctx(dict(_ctx("c"), inner={"root": None, "frames": [fr() for _ in range(n)], "leaf": None, "error": None}))
+        # the same context repeated at one with-line, then the frame's own entry
+        yield {"root": None, "frames": [fr(ctxs=[rc() for _ in range(n)])], "leaf": None, "error": None}
+        # hidden frames inside the run: 2n frames, every other one hidden
+        yield {"root": None, "frames": [fr(hide=bool(i % 2)) for i in range(2 * n)], "leaf": None, "error": None}
+        # frames that each carry the same context: entries alternate, no folding
+        yield {"root": None, "frames": [fr(ctxs=[rc()]) for _ in range(n)], "leaf": None, "error": None}
